@@ -275,6 +275,62 @@ OTHER_KINDS = {
     'overflow-bigint': [raws('bi = B170141183460469231731687303715884105727\nbj = bi + n\nr = 1')],
     'overflow-bigint-mul': [raws('bi = B170141183460469231731687303715884105727\nbj = bi * n\nr = 1')],
 }
+# ---- `nil` where the static type promises a value (hunt D7 / D8 / D12).  A `T?` variable compared with `<`, a missing map
+# key (`m[k]` is typed `V` and reads as nil) handed to a built-in, an object that holds a map used as a map key.  Whatever the
+# language decides these mean -- a compile-time diagnostic, a run-time error, or a defined result -- it may not be a Rust panic.
+NIL_ORDER_KINDS = []
+for _sym, _nm in (('>', 'gt'), ('<', 'lt'), ('>=', 'ge'), ('<=', 'le')):
+    OTHER_KINDS['nil-order:%s:left' % _nm] = [raws('oi: int? = nil\nbq = oi %s n\nr = 1' % _sym)]
+    OTHER_KINDS['nil-order:%s:right' % _nm] = [raws('oi: int? = nil\nbq = n %s oi\nr = 1' % _sym)]
+    NIL_ORDER_KINDS += ['nil-order:%s:left' % _nm, 'nil-order:%s:right' % _nm]
+OTHER_KINDS['nil-order:both'] = [raws('oi: int? = nil\noj: int? = nil\nbq = oi < oj\nr = 1')]
+OTHER_KINDS['nil-order:float'] = [raws('of: float? = nil\nbq = of <= 1.5\nr = 1')]
+OTHER_KINDS['nil-order:bigint'] = [raws('ob: bigint? = nil\nbq = B5 > ob\nr = 1')]
+OTHER_KINDS['nil-order:missing-key'] = [raws('mp = map[str, int]\nmp["a"] = 1\nbq = mp["zz"] >= n\nr = 1')]
+OTHER_KINDS['nil-order:field'] = [raws('oq = Q17()\nbq = n >= oq.cap\nr = 1')]
+OTHER_KINDS['nil-order:in-condition'] = [raws('oi: int? = nil\nif oi > n {\n  r = 2\n}\nr = 1')]
+NIL_ORDER_KINDS += ['nil-order:both', 'nil-order:float', 'nil-order:bigint', 'nil-order:missing-key', 'nil-order:field', 'nil-order:in-condition']
+
+_MISSING = 'mp = map[str, int]\nmp["a"] = 1\nms = map[str, str]\nms["a"] = "x"\n'
+NIL_ARG_KINDS = {
+    'nil-arg:list-remove': 'l: [int...] = [1, 2, 3]\nr = l.remove(mp["zz"])',
+    'nil-arg:ensure-capacity': 'l: [int...] = [1, 2, 3]\nl.ensure_inner_capacity(mp["zz"])\nr = 1',
+    'nil-arg:join': 'ml = map[str, [int...]]\nl: [int...] = [1, 2, 3]\nj = l.join(ml["zz"])\nr = 1',
+    'nil-arg:map-callback': 'mf = map[str, fn(int) -> int]\nl: [int...] = [1, 2, 3]\nj = l.map(mf["zz"])\nr = 1',
+    'nil-arg:filter-callback': 'mf = map[str, fn(int) -> bool]\nl: [int...] = [1, 2, 3]\nj = l.filter(mf["zz"])\nr = 1',
+    'nil-arg:substring-begin': 't = "hello".substring(mp["zz"], 3)\nr = t.len()',
+    'nil-arg:substring-end': 't = "hello".substring(0, mp["zz"])\nr = t.len()',
+    'nil-arg:contains': 'bq = "hello".contains(ms["zz"])\nr = 1',
+    'nil-arg:index-of': 'iq = "hello".index_of(ms["zz"])\nr = 1',
+    'nil-arg:insert-text': 't = "hello".insert(ms["zz"], 1)\nr = t.len()',
+    'nil-arg:insert-position': 't = "hello".insert("x", mp["zz"])\nr = t.len()',
+    'nil-arg:replace-pattern': 't = "hello".replace(ms["zz"], "x")\nr = t.len()',
+    'nil-arg:replace-with': 't = "hello".replace("l", ms["zz"])\nr = t.len()',
+    'nil-arg:delete-begin': 't = "hello".delete(mp["zz"], 2)\nr = t.len()',
+    'nil-arg:delete-end': 't = "hello".delete(0, mp["zz"])\nr = t.len()',
+    'nil-arg:split': 'const parts = "hello".split(mp["zz"])\nr = 1',
+    'nil-arg:radix': 'pq = "10".parse_int_radix(mp["zz"])\nr = 1',
+    'nil-arg:bigint-radix': 'pq = "10".parse_bigint_radix(mp["zz"])\nr = 1',
+    'nil-arg:pow': 'pw = n.pow(mp["zz"])\nr = 1',
+    'nil-arg:powf': 'mf = map[str, float]\nfx = 2.5\npw = fx.powf(mf["zz"])\nr = 1',
+}
+for _k, _body in NIL_ARG_KINDS.items():
+    OTHER_KINDS[_k] = [raws(_MISSING + _body)]
+
+OBJECT_KEY_KINDS = {
+    'object-key:map-field:store': 'sk = S17()\nhits = map[S17, int]\nhits[sk] = 1\nr = hits[sk]',
+    'object-key:map-field:read': 'sk = S17()\nhits = map[S17, int]\nhq = hits[sk]\nr = 1',
+    'object-key:map-field:contains': 'sk = S17()\nhits = map[S17, int]\nbq = hits.contains_key(sk)\nr = 1',
+    'object-key:map-field:remove': 'sk = S17()\nhits = map[S17, int]\nhq = hits.remove(sk)\nr = 1',
+    'object-key:map-field:literal': 'sk = S17()\nhits = map[S17, int] { sk: 1 }\nr = hits.len()',
+    'object-key:list-of-maps-field': 'sk = T17()\nhits = map[T17, int]\nhits[sk] = 1\nr = hits[sk]',
+    'object-key:object-with-map-field': 'sk = U17()\nhits = map[U17, int]\nhits[sk] = 1\nr = hits[sk]',
+    'object-key:in-list-key': 'sk = S17()\nhits = map[[S17...], int]\nhits[[sk]] = 1\nr = 1',
+    'object-key:index-of': 'sk = S17()\nsl: [S17...] = [sk]\niq = sl.index_of(sk)\nr = 1',
+}
+for _k, _body in OBJECT_KEY_KINDS.items():
+    OTHER_KINDS[_k] = [raws(_body)]
+
 # the zero-divisor matrix: {/, %, /=, %=} x dividend kind x divisor kind, operands in variables (nothing is folded).
 # An op-assign form is accepted by the compiler only when the promoted kind is the dividend's kind.
 ZD_DIVIDEND = {'int': 'a: int = 7', 'bigint': 'a: bigint = B7', 'byte': 'a: byte = 0b111', 'float': 'a: float = 7.5'}
@@ -306,10 +362,20 @@ for _opn, _op in ZD_OPS.items():
             ZERO_DIVISOR_KINDS.append(_k)
 
 P17 = ('class', 'P17', [('v', 'int')], ([], [raws('self.v = 1')]), [], False)
+Q17 = ('class', 'Q17', [('cap', ('opt', 'int'))], ([], [raws('self.cap = nil')]), [], False)
+S17 = ('class', 'S17', [('attrs', 'map[str, int]')], ([], [raws('self.attrs = map[str, int]')]), [], False)
+T17 = ('class', 'T17', [('rows', '[map[str, int]...]')], ([], [raws('self.rows = [map[str, int]]')]), [], False)
+U17 = ('class', 'U17', [('inner', 'S17')], ([], [raws('self.inner = S17()')]), [], False)
+KIND_CLASSES = {'nil-object-field': [P17], 'nil-order:field': [Q17], 'object-key:list-of-maps-field': [T17],
+                'object-key:object-with-map-field': [S17, U17]}
+for _k in OBJECT_KEY_KINDS:
+    KIND_CLASSES.setdefault(_k, [S17])
 
-
+# kinds whose meaning the language may define otherwise than as a failure (`nil < 3` could be false, an object that holds a
+# map could be a usable key): a run to the end is accepted, a panic / abort / wrong report is not
+MAY_NOT_FAIL = set(NIL_ORDER_KINDS) | set(NIL_ARG_KINDS) | set(OBJECT_KEY_KINDS)
 # kinds a correct implementation may also refuse at compile time (the defect is that the type checker lets them through)
-COMPILE_TIME_OK = {'map-in-list-key'}
+COMPILE_TIME_OK = {'map-in-list-key'} | MAY_NOT_FAIL
 
 
 def is_overflow(kind):
@@ -360,8 +426,8 @@ def build(plan):
     entry_prints = {}
 
     fail = [P('fail')] + (CORE_KINDS.get(kind) or OTHER_KINDS[kind])
-    if kind == 'nil-object-field':
-        heads[fidx[k]].append(P17)
+    for cls in KIND_CLASSES.get(kind, []):
+        heads[fidx[k]].append(cls)
 
     def invoke(i):
         """-> (pre statements, expression) calling link i from its caller's body"""
@@ -611,6 +677,11 @@ def check_spec(b, rc, stdout, stderr):
     if rc == 124:
         return [('%s:timeout' % kind, 'no result within the time limit')]
     if rc == 0:
+        if kind in MAY_NOT_FAIL:
+            # the operation has a defined result in this implementation: everything up to it was printed, nothing was lost
+            if got_lines[:len(b.stdout)] != b.stdout:
+                return [('%s:stdout' % kind, 'the program ran to the end but its output does not start with %r: %r' % (b.stdout[-4:], got_lines[:len(b.stdout)][-4:]))]
+            return []
         return [('%s:no-failure' % kind, 'the program ran to the end (exit 0); stdout tail %r' % got_lines[-3:])]
     if not banner:
         if kind in COMPILE_TIME_OK and 'Did not compile successfully' in stderr:
